@@ -52,12 +52,28 @@ class E:
     __str__ = __repr__
 
 
+class EV(E):
+    """Element with value-based equality, like the units of a quantity type
+    with reference unit: elements of one group with the same scale are equal
+    (and hash equal) without being identical."""
+
+    def __eq__(self, other):
+        if isinstance(other, E):
+            return self is other or (
+                self.group == other.group and self.scale is not None
+                and self.scale == other.scale)
+        return NotImplemented
+
+    def __hash__(self):
+        return hash((self.group, self.scale))
+
+
 def universe():
     from decimalfp import Decimal
-    a = E('a', 'A', 1, None, 1)
+    a = EV('a', 'A', 1, None, 1)
     b = E('b', 'B', 2)
     c = E('c', 'C', 3)
-    d = E('d', 'A', 1, [(Decimal(10), 1), (a, 1)], 10)
+    d = EV('d', 'A', 1, [(Decimal(10), 1), (a, 1)], 10)
     d2 = E('d2', 'A', 1, [(Decimal(100), 1), (a, 1)], 100)
     e = E('e', 'E', 4, [(a, 1), (b, -1)])
     f = E('f', 'F', 5, [(Decimal(2), 1), (e, 2), (c, 1)])
@@ -68,11 +84,28 @@ def universe():
     # units of a quantity type without reference unit, e.g. K and degC)
     n1 = E('n1', 'N', 6)
     n2 = E('n2', 'N', 6)
-    return {x.name: x for x in (a, b, c, d, d2, e, f, g, n1, n2)}
+    # a derived element that *equals* its base element (scale-1 alias, like
+    # Length.new_unit('x', define_as=1 * METRE)) and one that equals 'd'
+    a1 = EV('a1', 'A', 1, [(a, 1)], 1)
+    d1 = EV('d1', 'A', 1, [(Decimal(5), 1), (a, 1), (Decimal(2), 1)], 10)
+    return {x.name: x for x in (a, b, c, d, d2, e, f, g, n1, n2, a1, d1)}
 
 
 U = None
-UNITS = ['m', 'km', 's', 'h', 'N', 'kWh', 'J', 'kg', 'in', 'K', '°C']
+UNITS = ['m', 'km', 's', 'h', 'N', 'kWh', 'J', 'kg', 'in', 'K', '°C',
+         'm_al', 'km_al']
+# user-declared units that equal a catalogue unit without being identical
+ALIASES = {'m_al': ('m', F(1)), 'km_al': ('km', F(1000))}
+
+
+def declare_aliases():
+    import quantity
+    import quantity.predefined as P
+    from decimalfp import Decimal
+    if 'm_al' not in P.Length:
+        P.Length.new_unit('m_al', define_as=1 * P.METRE)
+        P.Length.new_unit('km_al', define_as=Decimal(1) * P.KILOMETRE)
+
 BASE_OF = {'M': 'kg', 'L': 'm', 'T': 's', 'D': 'B'}
 
 
@@ -84,6 +117,7 @@ def elem(code):
     if code.startswith('u:'):
         import quantity
         import quantity.predefined   # noqa
+        declare_aliases()
         return quantity.Unit(code[2:])
     if len(code) > 1 and code[1] == ':':
         return O.dec(code)
@@ -95,6 +129,8 @@ def den_elem(code):
     global U
     if U is None:
         U = universe()
+    if code.startswith('u:') and code[2:] in ALIASES:
+        return ALIASES[code[2:]][1], {'m': 1}
     if code.startswith('u:'):
         t, scale = O.UNIT_REF[code[2:]]
         if scale is None:           # temperature scales: own base element
@@ -397,7 +433,7 @@ def run_assoc(i1, i2, i3):
 
 # ---------------------------------------------------------------------------
 
-ELEMS = ['a', 'b', 'c', 'd', 'd2', 'e', 'f', 'g', 'n1', 'n2']
+ELEMS = ['a', 'b', 'c', 'd', 'd2', 'e', 'f', 'g', 'n1', 'n2', 'a1', 'd1']
 NUMS = ['i:2', 'i:-3', 'i:10', 'D:0.5', 'F:2/3']
 UEL = ['u:' + s for s in UNITS]
 
@@ -477,7 +513,8 @@ def run(tier, seed):
     import quantity.predefined  # noqa  (real units as elements)
     total = Stats()
     alphabet = item_alphabet(tier)
-    red = [(e, x) for e in ['a', 'd', 'd2', 'e', 'f', 'g', 'n1', 'n2', 'i:2',
+    declare_aliases()
+    red = [(e, x) for e in ['a', 'a1', 'd', 'd2', 'e', 'f', 'g', 'n1', 'n2', 'i:2',
                             'D:0.5', 'F:2/3'] for x in (-1, 1, 2)]
     red += [('b', 0), ('e', 0), ('i:2', 0), ('n1', 0)]   # given zero exponents
     if tier == 'thorough':
@@ -502,12 +539,12 @@ def run(tier, seed):
     k = seed % 3
     sub = [('a', 1), ('a', -1), ('b', 2), ('c', -2), ('d', 1), ('d', -1),
            ('d2', 1), ('e', 1), ('e', -2), ('f', 1), ('g', 1), ('g', -1),
-           ('n1', 1), ('n2', 1), ('n2', -1),
+           ('n1', 1), ('n2', 1), ('n2', -1), ('a1', 1), ('d1', 1),
            ('i:2', 1), ('i:2', -1), ('i:2', 2), ('i:10', 1), ('D:0.5', 1),
            ('F:2/3', 1), ('F:2/3', -2), ('i:-3', [1, 2, 3][k])]
     if tier == 'quick':
         drop = {('c', -2), ('i:2', 2), ('F:2/3', -2), ('e', -2), ('d', -1),
-                ('a', -1), ('g', -1), ('i:10', 1)}
+                ('a', -1), ('g', -1), ('i:10', 1), ('d1', 1)}
         sub = [x for x in sub if x not in drop]
     shorts = [[list(x)] for x in sub] + \
         [[list(x), list(y)] for x in sub for y in sub]
